@@ -223,6 +223,9 @@ func (ls *loaderStub) load(ctx context.Context, key K) (theine.Loaded[V], error)
 	simrt.Yield(simrt.KStub)
 	rec = rd.Loader[idx]
 	rec.End, rec.EndT, rec.Outcome, rec.Cost, rec.TTL = simrt.Stamp(), simrt.Now(), outcome, cost, ttl
+	if !simrt.RaceEnabled && rd.Store != nil && !internal.FlightRegistered(rd.Store, key) {
+		rec.Unreg = true
+	}
 	rd.Loader[idx] = rec
 	switch outcome {
 	case "err":
